@@ -76,6 +76,14 @@ def leaves(r):
     return r["ch"] if r["ch"] else [r]
 
 
+MUTATIONS = []      # (kind, call index, what) - a `write` that changed the state handed to it (filled by run_impl_session)
+
+
+def _node_values(nodes):
+    return [[(tuple(n.value.identifier), list(n.value.position), None if n.value.velocity is None else list(n.value.velocity),
+              None if n.value.charge is None else dict(n.value.charge)) for n in [r] + list(r.children)] for r in nodes]
+
+
 def build_nodes(state):
     """the real `Node`/`Unit` trees for a plain state"""
     from jellyfysh.base.node import Node
@@ -425,6 +433,7 @@ def run_impl_session(impl, kind, tmp, per_root, states):
         nodes = build_nodes(st)
         buf = io.StringIO()
         err = "ok"
+        before = _node_values(nodes)
         with contextlib.redirect_stdout(buf):
             try:
                 r = h.write(nodes)
@@ -432,6 +441,12 @@ def run_impl_session(impl, kind, tmp, per_root, states):
                     err = "returned:" + repr(r)
             except Exception as e:  # noqa
                 err = exc_token(e)
+        # the extracted global state hands out the STORED position / charge objects (C13): an output handler that changes what it is
+        # handed changes the global state at a sampling event, which is not a commit
+        after = _node_values(nodes)
+        if after != before:
+            bad = next((b, a) for rb, ra in zip(before, after) for b, a in zip(rb, ra) if b != a)
+            MUTATIONS.append((kind, len(writes), f"unit {bad[0][0]}: {bad[0][1:]} -> {bad[1][1:]}"))
         out = buf.getvalue()
         msg = "1" if "Calculated" in out else "0"
         if msg == "1" and out.strip() != f"{type(h).__name__}: Calculated {h._counter} samples.":
@@ -573,6 +588,10 @@ def check(ctx, sessions=None):
             finally:
                 impl.setting.reset()
             ctx.count("kind:" + kind); ctx.count("box:" + box); ctx.count(f"dim:{dim}")
+            while MUTATIONS:
+                k_, call_, what_ = MUTATIONS.pop(0)
+                ctx.fail("output:write-changes-the-state-it-is-handed:" + k_, dict(case, call=call_, state=state_json(states[call_]) if call_ < len(states) else None),
+                         "an output handler's write() modified the extracted global state (the stored field objects): " + what_)
             # ---- model side requests
             lines.append(f"init {kind} " + setting_tokens(box, dim, Ls, levels, per_root))
             if init != "ok":
